@@ -10,6 +10,9 @@ CONFIGS = [(False, ["testdata"]), (True, ["testdata"]), (False, []), (True, []),
            (True, ["/gen/"]), (False, ["zz_generated", "/gen/", "uses_"]), (True, ["_extra_"]), (False, ["nomatch", " "])]
 
 
+VET_CONFIGS = [(True, ["zz_generated", "/gen/"]), (False, ["zz_generated", "/gen/", "uses_"])]
+
+
 def skipped(cfg, absname):
     scan, paths = cfg
     return any(p in absname for p in paths) or (not scan and absname.endswith("_test.go"))
@@ -57,10 +60,29 @@ def run(ctx):
                 nblank += 1
         r2 = lib.run_binary(ctx, root2, flags=flags)
         shutil.rmtree(d2, ignore_errors=True)
-        return r, m, r2, nblank
+        # the same configuration through go vet (unitchecker starts the tool in each package's own directory) and from
+        # inside an excluded directory: exclusion is decided on the file name, not on where the tool was started
+        other = {}
+        if cfg in VET_CONFIGS:
+            fl = ["-config.scan-tests=%s" % ("true" if cfg[0] else "false"), "-config.exclude-paths=" + ",".join(cfg[1]), "-config.exclude-checks="]
+            rc, out, err = lib.sh(["go", "vet", "-vettool=" + ctx.gg] + fl + ["./..."], cwd=root, env=ctx.env, timeout=1800)
+            vk = set()
+            for line in (err + "\n" + out).split("\n"):
+                mm = re.match(r"^(\S+?\.go):(\d+):(\d+): error: \[(\w+)\]", line.strip())
+                if mm:
+                    f = mm.group(1)
+                    f = os.path.relpath(f, root) if f.startswith("/") else os.path.normpath(f)
+                    vk.add((f, int(mm.group(2)), mm.group(4)))
+            other["go vet -vettool"] = (vk, bool(re.search(r"panic:|internal error", err + out)))
+            sub = os.path.join(root, "w0000", "gen")
+            if os.path.isdir(sub):
+                rs = lib.run_binary(ctx, sub, flags=flags, patterns=["."])
+                sk = {(os.path.normpath(os.path.join("w0000/gen", x["file"])), x["line"], x["code"]) for x in rs["diags"]}
+                other["started inside w0000/gen"] = (sk, rs["crashed"])
+        return r, m, r2, nblank, other
     with concurrent.futures.ThreadPoolExecutor(max_workers=lib.NCPU) as ex:
         results = list(ex.map(one, CONFIGS))
-    for cfg, (r, m, r2, nblank) in zip(CONFIGS, results):
+    for cfg, (r, m, r2, nblank, other) in zip(CONFIGS, results):
         evaluations += len(allfiles)
         a_only, m_only = worlds.compare(r["diags"], m["diags"], worlds.MODELLED)
         inside = [(x["file"], x["line"], x["code"]) for x in r["diags"] if skipped(cfg, os.path.join(root, x["file"]))]
@@ -69,6 +91,13 @@ def run(ctx):
         influence = sorted(k1 ^ k2)
         if nblank and r["diags"]:
             nontrivial.add((cfg[0], tuple(cfg[1])))
+        drv = []
+        for dn, (dk, dcrash) in other.items():
+            want = k1 if dn.startswith("go vet") else {x for x in k1 if x[0].startswith("w0000/gen/")}
+            if dk != want or dcrash:
+                drv.append({"driver": dn, "only_there": sorted(dk - want)[:8], "only_in_the_reference_run": sorted(want - dk)[:8]})
+        if drv:
+            influence = influence + [tuple(x) for dd in drv for x in dd["only_there"] + dd["only_in_the_reference_run"]]
         if a_only or m_only or inside or influence or tonl_in_tests or r["crashed"]:
             found = True
             if len(rep.violations) < 4:
@@ -78,7 +107,7 @@ def run(ctx):
                 rep.violation({"property": "C14", "kind": "excluded-files", "config": [cfg[0], cfg[1], []],
                                "diagnostics_located_in_excluded_files": inside[:10], "tonl_diagnostics_in_test_files": tonl_in_tests[:10],
                                "changed_when_comments_of_excluded_files_are_blanked": influence[:10],
-                               "implementation_vs_model": {"impl_only": a_only[:10], "model_only": m_only[:10]},
+                               "implementation_vs_model": {"impl_only": a_only[:10], "model_only": m_only[:10]}, "other_drivers_or_working_directories": drv,
                                "world": wid, "files": files,
                                "what": "excluded files are not inert under this configuration"})
     lib.obligation_gate(rep, ctx, "C14", found)
@@ -87,7 +116,7 @@ def run(ctx):
     rep.cov["rule"] = ("%d worlds with: a file excluded by a path entry inside the declaring package (zz_generated.go: @immutable/@constructor/@testonly/@packageonly items used elsewhere, violations), "
                        "a package in an excluded directory (/gen/), an in-package _test.go declaring an @immutable type, an external test package, plus the usual user packages; %d configurations "
                        "of scan-tests x exclude-paths (empty, default, several entries, an entry matching an ordinary file, blanks). Per configuration: implementation = model; no diagnostic in an "
-                       "excluded file; no TONL in _test.go; same diagnostics when the comments of all excluded files are blanked. evaluations = files x configurations; non-trivial = configurations "
+                       "excluded file; no TONL in _test.go; same diagnostics when the comments of all excluded files are blanked; for two configurations also go vet -vettool (tool started in each package's directory) and a run started inside an excluded directory give the same verdicts. evaluations = files x configurations; non-trivial = configurations "
                        "that exclude at least one file while diagnostics remain" % (n, len(CONFIGS)))
     rep.cov["files"] = len(allfiles)
     rep.cov["samples"] = [{"config": [c[0], c[1]], "excluded_files": sum(1 for f in allfiles if skipped(c, os.path.join(root, f))), "diagnostics": len(r[0]["diags"])} for c, r in zip(CONFIGS, results)]
